@@ -432,6 +432,10 @@ func cmdCheck(args []string) {
 	var assumptions []string
 	assumptions = append(assumptions, trustedBase...)
 	for _, n := range assumedList {
+		if strings.HasPrefix(n, "internal precondition") || strings.HasPrefix(n, "interface method") {
+			assumptions = append(assumptions, "UNCHECKED: "+n)
+			continue
+		}
 		assumptions = append(assumptions, "assumed contract of external function: "+n)
 	}
 	for _, n := range trustedList {
